@@ -49,6 +49,7 @@ def graw(g):
 
 def to_term(case, obs):
     h = []
+    c08.undelta(obs)
     prev = {}
     for op, ob in zip(case["ops"], obs):
         out = C("Ok") if ob["out"] == "Ok" else C("Raise", C(ob["out"]))
@@ -149,7 +150,10 @@ def gen_case(rnd, ctx, maxmut):
             v = fresh() if rnd.random() < 0.75 else None
             if v is None and sh.ref[(o, f)] is None and rnd.random() < 0.7:
                 return None
+            was = sh.ref[(o, f)]
             sh.ref[(o, f)] = v
+            if v is None and was is not None and rnd.random() < 0.35:
+                return ["SetRef", o, f, None, "del"]            # del o.f: back to None, with notification
             return ["SetRef", o, f, v]
         if r < (0.35 if want_ref else 0.12) + (0.2 if want_cont else 0.06):
             f = pick([3, 4, 5])
